@@ -858,6 +858,12 @@ def str_format(ex, st, recv, args, kwargs, node):
         if isinstance(a_, ty.OptV) and ty.is_z3(a_.val) and a_.val.sort() == weblib.S:
             ex.safety(st, "none-formatted-into-a-url", z3.Not(a_.isnone), node)     # "where=None" would be sent to the server
             args[k_] = a_.val
+    for k_, a_ in enumerate(args):
+        if isinstance(a_, ty.OptV) and ty.is_z3(a_.val) and z3.is_real(a_.val):
+            ex.safety(st, "none-formatted-into-a-query", z3.Not(a_.isnone), node)
+            args[k_] = a_.val
+    if len(args) == 1 and not kwargs and isinstance(recv, str) and ty.is_z3(args[0]) and z3.is_real(args[0]):
+        return _out(weblib.fmt(recv, args), st)          # "... {0}".format(x) for a real x: the text around str(x) (an unspecified function of x)
     if args and not kwargs and any(ty.is_z3(a) and a.sort() == weblib.S for a in args) or (args and isinstance(recv, str) and recv.endswith("={0}") and all(isinstance(a, int) or weblib.is_str(a) for a in args)):
         if all(isinstance(a, (int, str)) and not ty.is_z3(a) for a in args):
             return _out(recv.format(*args), st)
@@ -1600,6 +1606,7 @@ MODULE_FUNCS = {
     "math.ceil": m_math_ceil,
     "random.choice": m_random_choice,
     "requests.get": lambda ex, st, a, k, n: __import__("pyvc.weblib", fromlist=["x"]).requests_get(ex, st, a, k, n),
+    "requests.head": lambda ex, st, a, k, n: __import__("pyvc.weblib", fromlist=["x"]).requests_head(ex, st, a, k, n),
     "copy.deepcopy": lambda ex, st, a, k, n: __import__("pyvc.copylib", fromlist=["x"]).m_deepcopy(ex, st, a, k, n),
     "pandas.DataFrame": lambda ex, st, a, k, n: __import__("pyvc.pdlib", fromlist=["x"]).dataframe(ex, st, a, k, n),
     "pandas.concat": lambda ex, st, a, k, n: __import__("pyvc.pdlib", fromlist=["x"]).concat(ex, st, a, k, n),
